@@ -6,7 +6,7 @@ PROP = {
     "jobs": [
         job("udp-sessions", "core", "./server/", "server",
             ["harness/core/server/c07c08_fakes_test.go", "harness/core/server/c07_sessions_test.go"],
-            "^TestVerifC07", ["udp-timelines", "udp-boundary", "udp-slowdial"], race=True,
+            "^TestVerifC07", ["udp-timelines", "udp-boundary", "udp-slowdial", "udp-endsweep"], race=True,
             timeout_quick=300, timeout_thorough=3600),
     ],
     "race_oracle": True,
@@ -26,7 +26,10 @@ PROP = {
              "(parks until released) and starts timeout+{1,50,600}ms before a sweep instant; at that instant the driver "
              "spins (no clock) until the sweeper waits for the session lock or has closed the session, then releases "
              "the dial; x {dial, hook, hook with rewrite} x timeouts {100,300}ms x 0/3 bystander sessions x what follows "
-             "(end, datagram queued behind the dial, reply, same ID again). A case is "
+             "(end, datagram queued behind the dial, reply, same ID again). endsweep: k idle-but-not-yet-swept and m fresh sessions (k,m in 1..8, x2 variants), the IO ends 1..12 ms "
+             "before a sweep instant and the first Close event of Run's final cleanup sleeps (virtual) across that "
+             "instant, so a periodic sweep runs in the middle of the final cleanup; verdict by the end-of-connection "
+             "census. A case is "
              "non-trivial when at least one idle expiry and at least one delivered reply occurred; distinct = distinct "
              "(timeout, script)."),
     "assumptions": [
